@@ -44,23 +44,23 @@ def body(c):
     # 1. design level
     mc = dict(K.MC_DEFAULT, Feat='{"iter", "compact"}', Exps="{0, 2}", MaxNow="2")
     K.model_check(c, "snapshot-2txn-2key-compact-expiry", mc, INV, PROPS, bound="nval <= %d" % (2 if q else 3),
-                  timeout=300 if q else 1500)
+                  timeout=3000)
     # 2. generated histories
     tab = K.key_table(c.seed)
     sim = K.hist_consts(tab, Exps="{0, 3}", MaxNow="3", HistLen="30", EnvSteps=K.tla_set(K.ENV_ALL), EnvWeight="2",
                         IterOptList=K.tla_seq([K.tla_opts(), K.tla_opts(rev=True), K.tla_opts(all=True),
                                                K.tla_opts(since=1), K.tla_opts(all=True, rev=True)]),
                         SplitIter="TRUE", MaxOps="4")
-    n = 700 if q else 12000
-    sims = K.generate(c, "sim-8txn-env", sim, n, 30, c.seed, workers=8 if q else 12, timeout=240 if q else 900)
+    n = 500 if q else 4000
+    sims = K.generate(c, "sim-8txn-env", sim, n, 30, c.seed, workers=8 if q else 12, timeout=1800)
     hist = K.op_histogram(sims)
     c.cov["generated_op_histogram"] = hist
     nontriv = [h for h in sims if interesting(h)]
     c.cov["histories_reading_across_commit_or_env_step"] = len(nontriv)
     if len(nontriv) < len(sims) // 4:
         raise vlib.Inconclusive("generator shaping lost: only %d of %d histories read across a concurrent step" % (len(nontriv), len(sims)))
-    confs = ["vlog", "enc+zstd+l3", "inmem"] if q else ["default", "vlog", "enc+vlog", "zstd", "snappy+vlog", "l3+vlog",
-                                                          "inmem", "vlogpct", "enc+zstd+l3", "sync+vlog"]
+    confs = ["vlog", "enc+zstd+l3", "inmem"] if q else ["default", "vlog", "enc+vlog", "snappy+vlog", "l3+vlog",
+                                                          "inmem", "vlogpct", "enc+zstd+l3"]
     stats = {}
     for conf in confs:
         K.replay(c, sims, conf, c.seed, "sim-8txn-env", keys=tab, collect=stats)
